@@ -1,3 +1,3 @@
 SPECIFICATION Spec
 CONSTANT MaxDepth = 3
-INVARIANTS WellNested RejectedNeverEnters AtMostOnce ReturnedMeansEntered
+INVARIANTS NoUseAfterDrop WellNested RejectedNeverEnters AtMostOnce ReturnedMeansEntered
